@@ -120,11 +120,11 @@ Definition fstep (fw : fworld) (mv : move) : fworld :=
 
 Definition frun_all (fw : fworld) (sched : list move) : fworld := fold_left fstep sched fw.
 
-Definition finit (scripts : tid -> list libcall) (started : tid -> bool) (sig0 : bool) (sem0 : Z) : fworld :=
-  {| base := init scripts started sig0 sem0; fp := fun _ => FNone; foreign_unlock := false |}.
+Definition finit (scripts : tid -> list libcall) (results : tid -> Z) (started : tid -> bool) (sig0 : bool) (sem0 : Z) : fworld :=
+  {| base := init scripts results started sig0 sem0; fp := fun _ => FNone; foreign_unlock := false |}.
 
-Definition freach scripts started s0 v0 (fsched : list move) : fworld :=
-  frun_all (finit scripts started s0 v0) fsched.
+Definition freach scripts results started s0 v0 (fsched : list move) : fworld :=
+  frun_all (finit scripts results started s0 v0) fsched.
 
 (* ---- histories up to commuting independent events ---- *)
 Definition sig_call (c : libcall) : bool :=
